@@ -1,6 +1,6 @@
 import PebblesVerif.Props.C01FlatList
 import PebblesVerif.Props.C06Flat
-import PebblesVerif.Proofs.C02Flat5
+import PebblesVerif.Proofs.C02Flat6
 /-!
 # C02, end to end, for the flat families
 
@@ -26,10 +26,45 @@ selects `T.n`; `C02.IsNodeLookup T sub rq` — `rq` is exactly
 `query($id: ID!) { node(id: $id) { ... on T { sub } } }`; `C02.SubrequestsOK` — the conclusion,
 field by field. The hypotheses about the SERVICE schemas are `Flat.SvcFam` / `Mut.SvcFam`
 (`Proofs/C02Flat2.lean`, `Proofs/C02Flat5.lean`); `Flat.Fam` / `Mut.Fam` speak of the merged
-schema and the routing table only. Proofs: `Proofs/C02Flat1…5.lean`.
+schema and the routing table only. Proofs: `Proofs/C02Flat1…6.lean`, `Proofs/C02Calls.lean`.
+
+Three layers, from the most general:
+* `C02_requests_are_plan_steps` — ALL operations, ALL plans, ALL downstreams: every request of every
+  call is the formatted form of a step of the plan, sent to that step's service (so validating the
+  steps of the plan against the schemas of their services — what the C02 harness does with
+  gqlparser on the real planner's plan — covers everything that is ever sent);
+* `C02_flat_every_downstream`, `C02_flat_list_every_downstream`,
+  `C02_flat_mutation_every_downstream` — the flat families, EVERY downstream (wrong answers and
+  faults included): every request sent is valid for its service, of the right form, and selects a
+  client field iff it goes to the field's owner;
+* `C02_flat_subrequests_valid`, `C02_flat_list_subrequests_valid`,
+  `C02_flat_mutation_subrequests_valid` (+ `…_any`) — with services answering as the reference
+  evaluator does (or any well-formed answers) the call list is known exactly: one request to `A`,
+  one batch of lookups to `B`, ids of the entities, each field in exactly one request.
 -/
 namespace PebblesVerif
 open PebblesVerif.Exec
+
+/-! ## every operation: what is sent is what was planned -/
+
+/-- **Every request of every call is the formatted form of a step of the plan, sent to that step's
+    service.** For every planning context, executor configuration, operation, variables, downstream
+    (faults and malformed answers included) and scrub order: if the planner model yields the plan
+    `steps` and the pipeline `Exec.gateway` ends with `res`, then for every request `rq` of every
+    call of `res.calls` there is a step `s` of the plan (`Exec.InPlan`: a root step or, recursively,
+    a child step) with `s.url` the URL called and `rq` exactly `Exec.requestOf c s vars`: the header
+    synthesised for `s` (`C02_header_declares`), the selection set of `s`, its operation name and
+    query key, and the variables `getVariables` computes for `s` at some insertion point
+    (`C02_variables_forwarded`, `C02_value_forwarded`). Nothing else is ever sent, and nothing is
+    sent anywhere else. -/
+theorem C02_requests_are_plan_steps (c : PCtx) (cfg : ExecCfg) (op : Op) (rv : Option (List (String × J)))
+    (down : Downstream) (so : Scrub → Scrub) (steps : List Step) (sf : Scrub)
+    (hplan : plan c op = .ok (steps, sf)) (res : GwResult)
+    (h : gateway c cfg op rv down so = .ok res) :
+    ∀ cl ∈ res.calls, ∀ rq ∈ cl.batch, ∃ s ip vars, InPlan steps s ∧ s.url = cl.url ∧
+      getVariables (withDeclaredDefaults Gen.Vars.declaredDefaultsApplied op rv) c ⟨s, ip⟩ = .ok vars ∧
+      rq = requestOf c s vars :=
+  gateway_requests_are_plan_steps c cfg rv down op so steps sf hplan res h
 
 /-! ## one object, two owners -/
 
@@ -189,6 +224,48 @@ theorem C02_flat_mutation_subrequests_valid {c : PCtx} {ms : List Mut.MSpec} (h 
         rq.header.kind = .mutation ∧ rq.header.varDecls = [] ∧ rq.vars = [] := by
   obtain ⟨d, hg⟩ := C06_flat_mutation_calls_explicit h down hdown
   exact ⟨d, _, hg, C02.mut_calls_ok h hs⟩
+
+/-! ## every downstream -/
+
+/-- **One object, two owners — EVERY downstream.** Under `Flat.Fam` and `Flat.SvcFam` alone (no
+    hypothesis on the data or on what the services answer): whenever the pipeline ends (`.ok res` —
+    also with `data: null` and an error, in which case the model records no calls), every request
+    `rq` of every call `cl` it made satisfies `C02.RequestOK`:
+    * `valid`: `rq` is `ValidFor` the schema of the service at `cl.url`;
+    * `form`: either `cl.url = A` and `rq` is a `query` with no variable declarations and no
+      variables, or `cl.url = B` and `rq` is exactly
+      `query($id: ID!) { node(id: $id) { ... on T { <B's fields> } } }` with
+      `vars = [("id", i)]` for a non-empty string `i` (the id found in `A`'s answer, whatever it is);
+    * `owner`: for every client-selected field `T.f`, `rq` selects it once if `cl.url` is the
+      service the table routes `f` to, and not at all otherwise.
+    How many lookups there are and for which ids depends on the answers; their validity does not. -/
+theorem C02_flat_every_downstream {c : PCtx} {A B T q : String} {fs : List Flat.FieldSpec}
+    (h : Flat.Fam c A B T q fs) (svcs : List Svc) (SA SB : Schema) (hs : Flat.SvcFam c A B T q fs SA SB)
+    (hsA : svcs.find? (·.url == A) = some ⟨A, SA⟩) (hsB : svcs.find? (·.url == B) = some ⟨B, SB⟩)
+    (down : Downstream) (res : GwResult)
+    (hg : gateway c {} ⟨.query, "", [], [Flat.Q T q fs]⟩ none down = .ok res) :
+    ∀ cl ∈ res.calls, ∀ rq ∈ cl.batch, C02.RequestOK svcs A B T fs cl.url rq :=
+  C02.flat_every_downstream h hs svcs hsA hsB down res hg
+
+/-- **A list of objects, two owners — EVERY downstream**: the same for `q : [T]`; every request
+    of the batch of lookups is a `node` lookup for some non-empty id. -/
+theorem C02_flat_list_every_downstream {c : PCtx} {A B T q : String} {fs : List Flat.FieldSpec}
+    (h : Flat.Fam c A B T q fs) (svcs : List Svc) (SA SB : Schema) (hs : Flat.SvcFam c A B T q fs SA SB)
+    (hsA : svcs.find? (·.url == A) = some ⟨A, SA⟩) (hsB : svcs.find? (·.url == B) = some ⟨B, SB⟩)
+    (down : Downstream) (res : GwResult)
+    (hg : gateway c {} ⟨.query, "", [], [FlatList.QL T q fs]⟩ none down = .ok res) :
+    ∀ cl ∈ res.calls, ∀ rq ∈ cl.batch, C02.RequestOK svcs A B T fs cl.url rq :=
+  C02.flat_list_every_downstream h hs svcs hsA hsB down res hg
+
+/-- **Flat mutations — EVERY downstream**: whenever the pipeline ends, every request of every call
+    is `ValidFor` the schema of the service called, a `mutation`, without variables. -/
+theorem C02_flat_mutation_every_downstream {c : PCtx} {ms : List Mut.MSpec} (h : Mut.Fam c ms)
+    (svcs : List Svc) (hs : Mut.SvcFam c ms svcs) (down : Downstream) (res : GwResult)
+    (hg : gateway c {} (Mut.op c ms) none down = .ok res) :
+    ∀ cl ∈ res.calls, ∀ rq ∈ cl.batch,
+      C02.ValidFor (C02.schemaAt svcs cl.url) rq = true ∧
+      rq.header.kind = .mutation ∧ rq.header.varDecls = [] ∧ rq.vars = [] :=
+  C02.mut_every_downstream h hs down res hg
 
 /-! ## instances -/
 
@@ -358,7 +435,61 @@ theorem C02_flat_mutation_subrequests_valid_instance :
         rq.header.kind = .mutation ∧ rq.header.varDecls = [] ∧ rq.vars = [] :=
   C02_flat_mutation_subrequests_valid Mut.Example.fam msvcs msvcFam Mut.Example.downEmpty Mut.Example.downEmpty_answers
 
+/-- non-vacuity of `C02_flat_every_downstream` / `C02_flat_list_every_downstream`: the example
+    federations meet `Flat.Fam` and `Flat.SvcFam`; the remaining hypothesis (the pipeline ends) holds
+    e.g. for the reference services (`C02_flat_subrequests_valid_instance`, two calls) and is
+    exercised with invented ids and vanished entities by the `#guard`s below -/
+theorem C02_flat_every_downstream_instance (down : Downstream) (res : GwResult)
+    (hg : gateway Flat.Example.ctx {} ⟨.query, "", [], [Flat.Q "Animal" "animal" Flat.Example.fs]⟩ none down = .ok res) :
+    ∀ cl ∈ res.calls, ∀ rq ∈ cl.batch, C02.RequestOK svcs1 "A" "B" "Animal" Flat.Example.fs cl.url rq :=
+  C02_flat_every_downstream Flat.Example.fam svcs1 schemaA1 schemaB svcFam1 (by rfl) (by rfl) down res hg
+
+theorem C02_flat_list_every_downstream_instance (down : Downstream) (res : GwResult)
+    (hg : gateway FlatList.Example.ctx {} FlatList.Example.op none down = .ok res) :
+    ∀ cl ∈ res.calls, ∀ rq ∈ cl.batch, C02.RequestOK svcsL "A" "B" "Animal" FlatList.Example.fs cl.url rq :=
+  C02_flat_list_every_downstream FlatList.Example.fam svcsL schemaAL schemaB svcFamL (by rfl) (by rfl) down res hg
+
 end Instances
+
+/-! ## checks by evaluation (tests of the definitions, not obligations)
+
+`ValidFor` and the pipeline evaluated on the instances — run by the evaluator at every build; they
+fail the build if a definition or the model changes its answer. -/
+namespace C02.Example
+
+/-- are all requests of all calls valid for the service called? and: URL, number of requests per call -/
+def allValid (svcs : List Svc) (r : G GwResult) : Option (Bool × List (String × Nat)) :=
+  match r with
+  | .ok g => some (g.calls.all (fun cl => cl.batch.all (fun rq => ValidFor (schemaAt svcs cl.url) rq)),
+                   g.calls.map (fun cl => (cl.url, cl.batch.length)))
+  | .error _ => none
+
+def op1 : Op := ⟨.query, "", [], [Flat.Q "Animal" "animal" Flat.Example.fs]⟩
+
+/-- a service `A` that invents ids and a service `B` that knows none of them -/
+def downOdd : Downstream := fun url batch =>
+  if url == "A" then
+    .ok [[("animals", .arr [.obj [("id", .str "zz"), ("name", .null), ("sound", .null)],
+                            .obj [("id", .str "y#y"), ("name", .null), ("sound", .null)]])]]
+  else .ok (batch.map (fun _ => [("node", .null)]))
+
+-- the reference services: one object; a list with a repeated entity (two lookups); mutations
+#guard allValid svcs1 (gateway Flat.Example.ctx {} op1 none (specDownstream svcs1 Flat.Example.data))
+  == some (true, [("A", 1), ("B", 1)])
+#guard allValid svcsL (gateway FlatList.Example.ctx {} FlatList.Example.op none (specDownstream svcsL
+    (FlatList.Example.dataOf [FlatList.Example.e1, FlatList.Example.e2, FlatList.Example.e1])))
+  == some (true, [("A", 1), ("B", 2)])
+#guard allValid msvcs (gateway Mut.Example.ctx {} (Mut.op Mut.Example.ctx Mut.Example.ms) none Mut.Example.downEmpty)
+  == some (true, [("B", 1), ("A", 1)])
+-- services that answer something else entirely: the requests sent are still valid
+#guard allValid svcsL (gateway FlatList.Example.ctx {} FlatList.Example.op none downOdd)
+  == some (true, [("A", 1), ("B", 2)])
+-- a request is valid for its OWN service only: sent to the other one it fails
+#guard allValid [⟨"A", schemaB⟩, ⟨"B", schemaA1⟩]
+    (gateway Flat.Example.ctx {} op1 none (specDownstream svcs1 Flat.Example.data))
+  == some (false, [("A", 1), ("B", 1)])
+
+end C02.Example
 
 /-! ## the predicate is not vacuous -/
 
@@ -424,5 +555,11 @@ theorem C02_flat_invalid_if_misrouted :
   · decide
   · decide
   · decide
+
+-- the same by evaluation of the whole pipeline (a test)
+#guard C02.Example.allValid C02.Example.svcs1
+    (gateway C02.Misrouted.ctx {} ⟨.query, "", [], [Flat.Q "Animal" "animal" C02.Misrouted.fs]⟩ none
+      (specDownstream C02.Example.svcs1 Flat.Example.data))
+  == some (false, [("A", 1), ("B", 1)])
 
 end PebblesVerif
